@@ -106,7 +106,7 @@ def _run(prop, tier, seed, n_hist, budget, batch, workers, evidence_path, t0, ev
     primary, secondary = (WRITERS, readers) if prop == "C09" else (readers, WRITERS)
     sweep_jobs = []
     if tier == "quick":
-        targets = [(c, "sites", 220) for c in primary] + [(c, "sites", 120) for c in secondary[:2]]
+        targets = [(c, "sites", 400) for c in primary] + [(c, "sites", 150) for c in secondary[:2]]
     else:
         targets = [(c, "sites", 0) for c in primary for _ in range(12)] + [(c, "sites", 0) for c in secondary for _ in range(3)] \
             + [(c, "all", 6000) for c in primary for _ in range(2)]
